@@ -221,6 +221,38 @@ const TEXTS: [(&str, &str); 22] = [
 
 fn check_text(i: u64, l: &mut Local) {
     let (name, src) = TEXTS[i as usize];
+    check_text_src(name, src, l);
+}
+
+/// finite literals whose combination overflows only while the rows are assembled (the language has no
+/// exponent notation: the literals are written out)
+fn overflow_texts() -> Vec<(String, String)> {
+    let big = |zeros: usize| format!("1{}.0", "0".repeat(zeros));
+    let tiny = |zeros: usize| format!("0.{}1", "0".repeat(zeros));
+    let (b200, b308, t200) = (big(200), big(308), tiny(200));
+    let row = |r: &str| format!("min x\ns.t.\n    {r}\ndefine\n    x, y as Real(0, 3)\n");
+    let obj = |o: &str| format!("min {o}\ns.t.\n    x >= 1\ndefine\n    x, y as Real(0, 3)\n");
+    let mut v = vec![
+        ("nested-scales-row".to_string(), row(&format!("{b200} * ({b200} * x) >= 1"))),
+        ("nested-scales-right".to_string(), row(&format!("(x * {b200}) * {b200} >= 1"))),
+        ("repeated-variable-row".to_string(), row(&format!("{b308} * x + y + {b308} * x >= 1"))),
+        ("constants-split-by-a-variable-row".to_string(), row(&format!("{b308} + x + {b308} >= 1"))),
+        ("constants-on-both-sides-row".to_string(), row(&format!("x + {b308} >= 1 - {b308}"))),
+        ("quotient-by-a-tiny-constant-row".to_string(), row(&format!("({b200} * x) / {t200} >= 1"))),
+        ("scaled-difference-row".to_string(), row(&format!("{b200} * ({b200} * x - y) <= 4"))),
+        ("nested-scales-objective".to_string(), obj(&format!("{b200} * ({b200} * x)"))),
+        ("repeated-variable-objective".to_string(), obj(&format!("{b308} * x + y + {b308} * x"))),
+        ("constants-split-by-a-variable-objective".to_string(), obj(&format!("{b308} + x + {b308}"))),
+        ("quotient-by-a-tiny-constant-objective".to_string(), obj(&format!("({b200} * x) / {t200}"))),
+        ("huge-but-finite".to_string(), row(&format!("{b200} * x >= {b200}"))),
+    ];
+    // the same under a block operand
+    v.push(("nested-scales-in-max-operand".to_string(), obj(&format!("max {{ {b200} * ({b200} * x), y }}"))));
+    v.push(("nested-scales-under-abs".to_string(), row(&format!("abs {{ {b200} * ({b200} * x) }} <= 4"))));
+    v
+}
+
+fn check_text_src(name: &str, src: &str, l: &mut Local) {
     l.count(&format!("text:{name}"));
     let case_json = |what: String, lin: Option<String>| json!({"source": src, "what": what, "linear": lin});
     let model = match crate::core::catch(|| RoocParser::new(src.to_string()).parse_and_transform(vec![], &IndexMap::new())) {
@@ -343,7 +375,7 @@ pub fn run(mut run: Run) -> ! {
     crate::core::silence_panics();
     let quick = run.quick();
     let depth = if quick { 2 } else { 3 };
-    run.rule = format!("every linear model compiled from the C01 families (A: cores x context chains depth {depth} x relations x constants x declaration forms; B: logic trees x comparison forms; C: bound feeders x consumers; D: blocks over three variables with different ranges in every context) is checked against the structural invariants (sorted duplicate-free variables = domain keys, every source variable present, one coefficient per variable in every row and the objective, finite numbers, unique row names, $-prefixed auxiliaries, no constant above 1e7), every missing-bounds rejection against its contract (non-empty list, exactly the unbounded variables of the offending expression per the hooked bounds analysis), plus 22 adversarial texts (duplicate and colliding row names, user variables named like auxiliaries, unused declarations, vanishing coefficients, infinite constants, infinite bounds under exact lowerings, empty aggregations), plus family U: 9 lowering templates x 9 declared types of a user variable, which is given the name of every auxiliary the twin model (user variable called u_q) generates: the colliding model must be refused or keep as many columns and rows as the twin; distinct = model text");
+    run.rule = format!("every linear model compiled from the C01 families (A: cores x context chains depth {depth} x relations x constants x declaration forms; B: logic trees x comparison forms; C: bound feeders x consumers; D: blocks over three variables with different ranges in every context) is checked against the structural invariants (sorted duplicate-free variables = domain keys, every source variable present, one coefficient per variable in every row and the objective, finite numbers, unique row names, $-prefixed auxiliaries, no constant above 1e7), every missing-bounds rejection against its contract (non-empty list, exactly the unbounded variables of the offending expression per the hooked bounds analysis), plus 22 adversarial texts (duplicate and colliding row names, user variables named like auxiliaries, unused declarations, vanishing coefficients, infinite constants, infinite bounds under exact lowerings, empty aggregations), 14 texts whose finite literals (1e200, 1e308, 1e-200 written out) overflow only while rows and objective are assembled, plus family U: 9 lowering templates x 9 declared types of a user variable, which is given the name of every auxiliary the twin model (user variable called u_q) generates: the colliding model must be refused or keep as many columns and rows as the twin; distinct = model text");
     run.assume("derived bounds read through the verif_hooks view of the bounds analysis on the normalised constraints, as the linearizer computes them");
     let sa = family_a_size(depth, false);
     run.family("A-core-in-context", sa, move |i, l| check_case(&family_a(i, depth, false), l));
@@ -355,6 +387,14 @@ pub fn run(mut run: Run) -> ! {
     run.family("C-bound-feeders", family_c_size(), |i, l| check_case(&family_c(i), l));
     run.family("D-several-continuous-variables", family_d_size(1), |i, l| check_case(&family_d(i, 1), l));
     run.family("T-adversarial-texts", TEXTS.len() as u64, check_text);
+    {
+        let texts = std::sync::Arc::new(overflow_texts());
+        let t2 = texts.clone();
+        run.family("X-overflowing-literals", texts.len() as u64, move |i, l| {
+            let (name, src) = &t2[i as usize];
+            check_text_src(name, src, l);
+        });
+    }
     run.family("U-user-variables-named-like-auxiliaries", (U_TEMPLATES.len() * U_TYPES.len()) as u64, check_collision);
     for k in ["compiled", "rejected:MissingFiniteBounds", "missing-bounds-contracts-checked", "text:compiled", "text:rejected-by-linearizer", "collision:names-tried", "collision:refused"] {
         run.require(k);
